@@ -35,7 +35,7 @@ WATCHDOG_S = {"quick": 900, "thorough": 4 * 3600}
 
 HOSTILE = [u"&", u"<", u">", u"\"", u"'", u"]]>", u"<![CDATA[", u"&amp;", u"\x01", u"\x08", u"\x1b[31mred\x1b[0m",
            u"\x7f", u"\x80", u"\x9f", u"￾", u"\U0001F600", u"\U0001FFFE", u"ü", u" ", u"\t", u"--", u"<?xml",
-           u"\x0e", u"\x1b", u"\\x00", u"%s", u"{0}"]
+           u"\x0e", u"\x1b", u"\\x00", u"%s", u"{0}", u"]]\x1b[0m>", u"]\x1b[1m]>", u"]]\x01>"]
 PLAIN = [u"alpha", u"beta", u"x", u"1"]
 ERROR_CLASS = {"error", "hook_error", "undefined", "pending", "cleanup_error"}
 
